@@ -327,32 +327,36 @@ def run(ctx):
 
     # ------------------------------------------------------------------ R5
     r5 = ctx.rule("C16.R5", "finished helpers take their descriptors out of the epoll set")
-    qr = P.fn("xcm_dns_query_result")
-    r5.instance(qr.qname)
-    sw = [b for b in qr.blocks.values() if b.term and b.term["k"] == "SwitchStmt"][0]
-    okq = False
-    for s_, lab in C.edges(qr, sw):
-        if lab[0] == "case" and lab[2] == "query_state_successful":
-            if any(any(qr.nodes[x]["k"] == "call" and qr.nodes[x].get("callee") == "unreg_all_channel_fds" for x in qr.blocks[bb].elems)
-                   for bb in C.reachable_blocks(qr, s_, avoid={x for x, l2 in C.edges(qr, sw) if x != s_})):
-                okq = True
-    if okq:
-        r5.ok("a successful query result deregisters the resolver's descriptors", "case region")
-    else:
-        r5.violation("xcm_dns_query_result:fds", "the resolver's descriptors stay registered after the result was handed over", loc=qr.file)
-    tg = P.fn("track_get_connected_fd")
-    r5.instance(tg.qname)
-    sw = [b for b in tg.blocks.values() if b.term and b.term["k"] == "SwitchStmt"][0]
-    okt = False
-    for s_, lab in C.edges(tg, sw):
-        if lab[0] == "case" and lab[2] == "track_state_connected":
-            if any(any(tg.nodes[x]["k"] == "call" and tg.nodes[x].get("callee") in ("xpoll_fd_reg_del", "xpoll_fd_reg_del_if_valid") for x in tg.blocks[bb].elems)
-                   for bb in C.reachable_blocks(tg, s_, avoid={x for x, l2 in C.edges(tg, sw) if x != s_})):
-                okt = True
-    if okt:
-        r5.ok("the connected descriptor's EPOLLOUT registration is removed when it is handed over", "case region")
-    else:
-        r5.violation("track_get_connected_fd:reg", "the connected descriptor stays registered for EPOLLOUT (always writable: the loop spins)", loc=tg.file)
+    for fname, dereg, what in (("xcm_dns_query_result", ("unreg_all_channel_fds",), "the resolver's descriptors stay registered after the result was handed over"),
+                               ("track_get_connected_fd", ("xpoll_fd_reg_del", "xpoll_fd_reg_del_if_valid"),
+                                "the connected descriptor stays registered for EPOLLOUT (always writable: the loop spins)")):
+        g = P.fn(fname)
+        r5.instance(g.qname)
+        bad5, nsucc = [], [0]
+
+        class Dereg(S.SeqRule):
+            max_depth = 0
+
+            def user0(s2, fn):
+                return False
+
+            def on_call(s2, fn, st, nid, callees, exts):
+                if (fn.nodes[nid].get("callee") or "") in dereg:
+                    return True
+                return None
+
+            def on_exit(s2, fn, st, ret_nid, ret_cls, top):
+                if top and ret_cls != S.NEG:
+                    nsucc[0] += 1
+                    if not st.user and not bad5:
+                        bad5.append(ret_nid)
+        S.run(Dereg(P), g)
+        if nsucc[0] < 1:
+            raise Broken("C16.R5: no successful exit of %s explored" % fname)
+        if bad5:
+            r5.violation("%s:%s" % (fname, "fds" if "dns" in fname else "reg"), what, loc=g.loc(bad5[0]) if bad5[0] is not None else g.file)
+        else:
+            r5.ok("%s: every successful exit has taken the helper's descriptors out of the epoll set" % g.qname, "path exploration")
 
     # ------------------------------------------------------------------ R6
     r6 = ctx.rule("C16.R6", "a registration's kernel mask is the requested one: the no-op shortcut of the epoll wrapper is taken on equality only")
